@@ -244,8 +244,9 @@ def c04(E, blt, opts, r):
                         holds = has_quota(pc['vote'], prev['quota']) and fv(E, prev['quota']) > 0
                     if holds:
                         if rule == 'qpq':
-                            # K17: a quotient of 10**9 or more makes every ballot's share 1/quotient truncate to 0 at QPQ's nine places
-                            S9 = scale_of(E) or 1
+                            # K17: QPQ computes a ballot's share 1/quotient at 18 places (guarded 9+9): above a quotient of 10**9 the
+                            # share keeps fewer than nine significant digits, above 10**18 it is 0
+                            S9 = 10 ** 9
                             sig = dict(sig, share_underflow=any(x.get('quotient') is not None and fv(E, x['quotient']) >= S9 for x in prev['cstate'].values()))
                         out.append(V_('c04-excluded-with-quota', "candidate %d excluded at %r while holding %s >= quota %s" %
                                       (cid, a['msg'], pc['vote'], prev['quota']), **sig))
@@ -680,8 +681,8 @@ def c05(E, blt, opts, r):
             if got < need:
                 sig = arith_sig(E)
                 sig['after_stable_exit'] = any(a['msg'] == 'Iterate (stable)' for a in acts)
-                if rule == 'qpq':     # K19 / K17: a quotient of 10**9 or more makes every share 1/quotient truncate to 0
-                    S9 = scale_of(E) or 1
+                if rule == 'qpq':     # K19 / K17: shares 1/quotient lose their significant digits above a quotient of 10**9
+                    S9 = 10 ** 9
                     sig['share_underflow'] = any(x.get('quotient') is not None and fv(E, x['quotient']) >= S9 for a in acts for x in a['cstate'].values())
                 out.append(V_('c05-coalition', "coalition %s is ranked first by %d ballots > %d quotas (quota %s, allowance %s) but only %d of its members are elected %s"
                               % (sorted(ss), G, k, quota, allowance, got, sorted(elected)), **sig))
